@@ -322,4 +322,30 @@ example :
     earcut_area (tab P 5) (tab P 4) (tab P 0) = 0 := by
   decide +kernel
 
+/-- **The repaired `_get_leftmost` tie-break, on the model.**  Boundary
+`(9.25,−6.25),(−7.75,−3.25),(−5.75,−1.25),(−4.75,6.75),(8.25,9.75)` with holes
+`(6.75,−3.75),(4.25,−3.75),(4.25,−1.25)` and `(−4.25,0.25),(−5.25,0.25),(−5.25,−0.75)`
+(`hole_indices = [5, 8]`).  The first hole has two leftmost vertices, 6 and 7, with equal
+`x = 4.25`; `_linked_list` hands its ring over seen from vertex 7.  With the upstream rule
+(ties by smaller `y`) the hole is entered at vertex 6 = `(4.25,−3.75)`: the run is clean, uses
+every hole vertex, emits 11 triangles and their doubled areas add up to
+`368.75 = 2·184.375 = 376 − 6.25 − 1` exactly (`run_tiling_exact`).  Before the repair
+(`if p.x < leftmost.x` only) the hole was entered at vertex 7, the bridge crossed the hole and
+the real code returned 10 overlapping triangles of total area 186.125 that never use
+vertex 8. -/
+example :
+    let P : List (V2 ℚ) := [⟨37/4, -25/4⟩, ⟨-31/4, -13/4⟩, ⟨-23/4, -5/4⟩, ⟨-19/4, 27/4⟩,
+      ⟨33/4, 39/4⟩, ⟨27/4, -15/4⟩, ⟨17/4, -15/4⟩, ⟨17/4, -5/4⟩, ⟨-17/4, 1/4⟩, ⟨-21/4, 1/4⟩,
+      ⟨-21/4, -3/4⟩]
+    (holeQueue (tab P) [5, 8] 11).map (fun r => r.map Node.i) = [[10, 9, 8], [6, 7, 5]] ∧
+    (linkedList (tab P) [5, 6, 7] false).map Node.i = [7, 5, 6] ∧
+    (tab P 6).x = (tab P 7).x ∧ (tab P 6).y < (tab P 7).y ∧
+    (run (tab P) 11 [5, 8]).toOption.map trianglesOf =
+      some [2, 10, 9, 6, 1, 0, 3, 2, 9, 8, 1, 6, 5, 6, 0, 4, 3, 9, 8, 6, 7, 5, 0, 4, 4, 9, 8,
+        7, 5, 4, 4, 8, 7] ∧
+    (run (tab P) 11 [5, 8]).toOption.map (fun evs => decide (CleanHoles evs)) = some true ∧
+    (run (tab P) 11 [5, 8]).toOption.map (evSum (emitArea (tab P))) = some (1475 / 4) ∧
+    |shoelace (P.take 5)| - |shoelace ((P.drop 5).take 3)| - |shoelace (P.drop 8)| = 1475 / 4 := by
+  decide +kernel
+
 end Lbg.Props.C05b
